@@ -286,6 +286,80 @@ example : tm2 exV 3 2 1 3 0 = ⟨0, 36/125⟩ := by decide +kernel
 example : tm2 exVᵀ 3 2 1 3 0 ≠ tm2 exV 3 2 1 3 0 := by decide +kernel
 example : tm1 (fun _ _ => (⟨0, 1⟩ : GQ)) 4 3 3 = ⟨0, -1⟩ := by decide +kernel
 
+/-- **a two-mode block that does not mix its modes is two phases** (exactly degenerate component:
+`BS(theta=0)`, `Unitary(diag(a, d))`): when both off-diagonal entries vanish the two-mode tensor is
+the product of the one-mode tensors, of `U 0 0` on the upper mode and of `U 1 1` on the lower one —
+so the only legitimate short-cut for such a block gives a photon in the lower mode the phase
+`U 1 1`, not `U 0 0`; every commutative ring, every photon number within the tensor -/
+theorem mps_tm2_diagonal [CommRing R] (U : Matrix (Fin 2) (Fin 2) R) (h01 : U 0 1 = 0)
+    (h10 : U 1 0 = 0) (nmax n1 n2 m1 m2 : ℕ) (hn : n1 + n2 ≤ nmax) :
+    tm2 U nmax n1 n2 m1 m2 =
+      tm1 (fun _ _ => U 0 0) (nmax + 1) n1 m1 * tm1 (fun _ _ => U 1 1) (nmax + 1) n2 m2 := by
+  unfold tm2 tm1
+  rw [if_pos hn, Finset.sum_eq_single n1, Finset.sum_eq_single 0]
+  · by_cases h1 : n1 = m1 <;> by_cases h2 : n2 = m2
+    · subst h1; subst h2
+      rw [if_pos ⟨by omega, by omega⟩, if_pos ⟨by omega, by omega, rfl⟩,
+        if_pos ⟨by omega, by omega, rfl⟩]
+      simp
+    · rw [if_neg (by omega)]; simp [h2]
+    · rw [if_neg (by omega)]; simp [h1]
+    · rw [if_neg (by omega)]; simp [h1]
+  · intro k2 _ hk2
+    split_ifs
+    · rw [h01, zero_pow hk2]; ring
+    · rfl
+  · intro h; exact absurd (Finset.mem_range.2 (Nat.succ_pos _)) h
+  · intro k1 hk1 hne
+    have : n1 - k1 ≠ 0 := by have := Finset.mem_range.1 hk1; omega
+    apply Finset.sum_eq_zero
+    intro k2 _
+    split_ifs
+    · rw [h10, zero_pow this]; ring
+    · rfl
+  · intro h; exact absurd (Finset.mem_range.2 (Nat.lt_succ_self _)) h
+
+/-- **an anti-diagonal two-mode block is a swap with phases** (`BS(theta=pi)`, the two-mode `PERM`,
+`Unitary(antidiag)`): the `n1` photons of the upper mode all leave in the lower mode with `U 1 0`
+each, the `n2` photons of the lower mode leave in the upper mode with `U 0 1` each -/
+theorem mps_tm2_antidiagonal [CommRing R] (U : Matrix (Fin 2) (Fin 2) R) (h00 : U 0 0 = 0)
+    (h11 : U 1 1 = 0) (nmax n1 n2 m1 m2 : ℕ) (hn : n1 + n2 ≤ nmax) :
+    tm2 U nmax n1 n2 m1 m2 =
+      tm1 (fun _ _ => U 1 0) (nmax + 1) n1 m2 * tm1 (fun _ _ => U 0 1) (nmax + 1) n2 m1 := by
+  unfold tm2 tm1
+  rw [if_pos hn, Finset.sum_eq_single 0, Finset.sum_eq_single n2]
+  · by_cases h1 : n1 = m2 <;> by_cases h2 : n2 = m1
+    · subst h1; subst h2
+      rw [if_pos ⟨by omega, by omega⟩, if_pos ⟨by omega, by omega, rfl⟩,
+        if_pos ⟨by omega, by omega, rfl⟩]
+      simp
+    · rw [if_neg (by omega)]; simp [h2]
+    · rw [if_neg (by omega)]; simp [h1]
+    · rw [if_neg (by omega)]; simp [h1]
+  · intro k2 hk2 hne
+    have : n2 - k2 ≠ 0 := by have := Finset.mem_range.1 hk2; omega
+    split_ifs
+    · rw [h11, zero_pow this]; ring
+    · rfl
+  · intro h; exact absurd (Finset.mem_range.2 (Nat.lt_succ_self _)) h
+  · intro k1 _ hne
+    apply Finset.sum_eq_zero
+    intro k2 _
+    split_ifs
+    · rw [h00, zero_pow hne]; ring
+    · rfl
+  · intro h; exact absurd (Finset.mem_range.2 (Nat.succ_pos _)) h
+
+/-! regression / non-vacuity for the degenerate blocks: `diag(1, -1)` (= `BS.H(theta=0)`); one photon
+in the lower mode picks up `U 1 1 = -1` — an engine that reads `U 0 0` for it returns `+1` -/
+def exD : Matrix (Fin 2) (Fin 2) GQ := fun i j =>
+  if i = 0 ∧ j = 0 then ⟨1, 0⟩ else if i = 1 ∧ j = 1 then ⟨-1, 0⟩ else 0
+
+example : exD 0 1 = 0 ∧ exD 1 0 = 0 ∧ tm2 exD 2 0 1 0 1 = ⟨-1, 0⟩ ∧
+    tm1 (fun _ _ => exD 0 0) 3 1 1 ≠ tm2 exD 2 0 1 0 1 := by decide +kernel
+example : exDᵀ.submatrix ![1, 0] id 0 0 = 0 ∧ tm2 (exD.submatrix ![1, 0] id) 2 1 1 1 1 = ⟨-1, 0⟩ := by
+  decide +kernel
+
 /-! ### the step-by-step simulator on the modes of each component (`Lemmas/C02Step.lean`,
 `Lemmas/C02Embed.lean`) -/
 
